@@ -345,6 +345,12 @@ class Explorer:
             self.stats['obl_cache_hits'] = self.stats.get('obl_cache_hits', 0) + 1
             return r, m
         r, m = self.prove(term, pc=sel, timeout_ms=timeout_ms, defs=[])
+        if r == 'sat':
+            # the sliced model does not constrain the other inputs of the path: complete it on the full path condition
+            r2, m2 = self.check(z3.Not(term), pc=pc, timeout_ms=timeout_ms, defs=[])
+            if r2 == 'sat':
+                return r, m2
+            return r, m
         memo[key] = ((r, m), sel, term)     # keep the terms alive (ids stay unique)
         return r, m
 
